@@ -428,6 +428,86 @@ def _chain_job(item):
     return part.dump()
 
 
+def _misc_job(_):
+    """two drivers for metadata that only shows on particular shapes"""
+    import itertools
+
+    part = Part()
+    memo = {}
+
+    class Sp:  # the little of Space that check_meta needs when no truth table is available
+        w = 0
+
+        @staticmethod
+        def den(e):
+            raise DenError("no scope")
+
+    # (1) variables that share an explicit name but not a width, all round-tripped through Z3 in one thread
+    for wa, wb in ((8, 32), (32, 8), (1, 8), (16, 64), (64, 16)):
+        a = claripy.BVS("samename", wa, explicit_name=True)
+        b = claripy.BVS("samename", wb, explicit_name=True)
+        exprs = [a * 3 + 2 + 5, b * 3 + 2 + 5, claripy.Concat(a, b), claripy.ZeroExt(wb, a) if wa < wb else claripy.ZeroExt(wa, b), (a + 1) == 7, claripy.If(claripy.ULT(b, 3), b, b + 1), a ^ (a + 1), claripy.SignExt(1, b) + 1]
+        for e in exprs:
+            for name, f in (("claripy.simplify", claripy.simplify), ("z3.simplify", claripy.backends.z3.simplify)):
+                part.count("transitions")
+                part.count("same_name_round_trips")
+                case = f"samename|{wa}/{wb}|{name}|{show(e)}"
+                try:
+                    q = f(e)
+                except ClaripyError:
+                    part.count("followup_raised")
+                    continue
+                except Exception as ex:  # noqa: BLE001
+                    part.fail(f"samename:raised:{type(ex).__name__}", case, str(ex)[:160])
+                    continue
+                if isinstance(q, claripy.ast.BV) and q.length != e.length:
+                    part.fail("meta:samename:length-changed", case, {"before": e.length, "after": q.length, "node": show(q)})
+                check_meta(Sp, q, part, "meta:samename", case, memo)
+                try:
+                    claripy.backends.z3.convert(q)
+                except Exception as ex:  # noqa: BLE001
+                    part.fail("meta:samename:not-convertible-any-more", case, {"node": show(q), "error": str(ex)[:120]})
+    # (2) If whose branches are the same width-changing / Boolean-valued operation: burrow / excavate keep the width
+    for w in (2, 8):
+        sp = exprspace.Space(w)
+        x, y = sp.bvs
+        c = sp.bools[0]
+        inner = [x + 1, y + 1, x ^ y, x & 1, ~y]
+        conds = [c, claripy.ULT(x, y), claripy.And(c, x == 1)]
+        z = y
+        mk = {
+            "ZeroExt8": lambda t: claripy.ZeroExt(8, t),
+            "SignExt3": lambda t: claripy.SignExt(3, t),
+            "Concat(.,1#4)": lambda t: claripy.Concat(t, claripy.BVV(1, 4)),
+            "Concat(z,.)": lambda t: claripy.Concat(z, t),
+            "Extract0": lambda t: t[0:0],
+            "ULT(.,z)": lambda t: claripy.ULT(t, z),
+            "==z": lambda t: t == z,
+            "+z": lambda t: t + z,
+        }
+        for (opn, f), (a, b), cond in itertools.product(mk.items(), itertools.permutations(inner, 2), conds):
+            try:
+                e = claripy.If(cond, f(a), f(b))
+            except ClaripyError:
+                continue
+            for name in ("burrow_ite", "excavate_ite"):
+                part.count("transitions")
+                part.count("ite_width_cases")
+                case = f"w={w}|{name}|If({show(cond)},{opn}({show(a)}),{opn}({show(b)}))"
+                try:
+                    q = getattr(claripy, name)(e)
+                except ClaripyError:
+                    part.count("followup_raised")
+                    continue
+                except Exception as ex:  # noqa: BLE001
+                    part.fail(f"{name}:raised:{type(ex).__name__}", case, str(ex)[:160])
+                    continue
+                if type(q) is not type(e) or getattr(q, "length", None) != getattr(e, "length", None):
+                    part.fail(f"meta:{name}:sort-or-width-changed", case, {"before": [type(e).__name__, e.length], "after": [type(q).__name__, q.length], "node": show(q)})
+                check_meta(sp, q, part, f"meta:{name}:family", case, memo)
+    return part.dump()
+
+
 def run(tier: str) -> int:
     rep = Report(
         PID,
@@ -447,6 +527,8 @@ def run(tier: str) -> int:
     from ..common import pmap
 
     for res in pmap(_chain_job, [(w, o) for w in ((2,) if tier == "quick" else (2, 3)) for o in ("xor", "and", "or", "add", "mul", "sub")]):
+        rep.merge(res)
+    for res in pmap(_misc_job, [0]):
         rep.merge(res)
     rep.assumptions = [
         "variables may over-approximate (superset) – only missing variables are failures",
